@@ -172,7 +172,9 @@ pub fn check_c06(tier: &str) -> ! {
 	crate::conc::common_assumptions(&mut rep);
 	run_menu(&mut rep, c06_programs(true), 0);
 	let _ = tier;
-	rep.set("rule", format!("{}; C06 oracle: after every step ThreadKey::get() (dropped again when Some) succeeds iff the per-thread key model says Free; inside every closure it fails", menu_rule()));
+	// "keys of different threads are independent": no key-carrying value may cross to another thread at all
+	crate::corpus::run_route("send-", "C06", &mut rep);
+	rep.set("rule", format!("{}; C06 oracle: after every step ThreadKey::get() (dropped again when Some) succeeds iff the per-thread key model says Free; inside every closure it fails; compile-time clause: every public key-carrying type (key, guards, key-returning errors, over raw locks with sendable guards too) is rejected as Send by rustc, each next to a compiling twin", menu_rule()));
 	rep.finish()
 }
 
@@ -180,6 +182,16 @@ pub fn check_c03(tier: &str) -> ! {
 	let mut rep = Report::new("C03", tier, "model_checking");
 	crate::conc::common_assumptions(&mut rep);
 	run_menu(&mut rep, c03_programs(tier == "thorough"), 0);
+	// an API that hands the key back while the call still holds something is this property's failure, whichever
+	// neighbouring property's oracle noticed it first (those oracles end the path, so C03's own never runs)
+	let mine = |v: &crate::report::Viol| ["failed-try-holds|", "leak-after-drop|", "leak-after-user-panic|", "blocking-returned-wouldblock|"].iter().any(|p| v.key.starts_with(p));
+	let moved: Vec<crate::report::Viol> = rep.xrefs.iter().filter(|v| mine(v)).cloned().collect();
+	rep.xrefs.retain(|v| !mine(v));
+	for mut v in moved {
+		v.key = format!("key-back-while-holding:{}:{}", v.prop, v.key);
+		v.prop = "C03".into();
+		rep.violation(v);
+	}
 	// (a) at the first raw op of every acquisition in every explored concurrent execution
 	let mut crep = Report::new("C03", tier, "model_checking");
 	crate::conc::core_families(&mut crep, tier == "thorough");
